@@ -62,5 +62,17 @@ def check(v, tier, opts):
                          "(assert!(window > 0) / `window - 1` underflow), the cmp kernels on an empty DefView, ts_vrank on "
                          "empty input or window 0 (`window - 1` underflow; recorded under C05) — witnessed by should_panic "
                          "harnesses and excluded from the other harnesses by kani::assume")
+    # Degenerate parameters: the property accepts "either a fully defined result or a clean panic". Since the repairs
+    # 394b9ad / 13ad273 the `*_to` drivers assert `window > 0` and the two-series drivers assert the second series is long
+    # enough; these documented panics are accepted in the window-0 / short-second-series harnesses, whose write-log and
+    # pointer checks remain asserted on every path that returns.
+    opts = dict(opts)
+    opts["allowed_failures"] = [
+        (r"^c10_w0_(drivers|kernels|out)_", r"window must be greater than 0"),
+        (r"^c10_short2_", r"the second series is shorter than the first"),
+    ]
     kani_engine.decide(v, "C10", tier, opts)
     return v.finish(RULE)
+
+
+READY = True
